@@ -23,6 +23,17 @@ MUTANTS = [
     ("C06-get_as_int-boundary", "C06", "metacommand_impl.py", "if value <= -2 ** bitness:", "if value < -2 ** bitness:", 1),
     ("C06-dword-halves", "C06", "metacommands.py", 'struct.pack("<H", value >> 16) + struct.pack("<H", value & 0xffff)', 'struct.pack("<H", value & 0xffff) + struct.pack("<H", value >> 16)', 1),
     ("C06-blkw", "C06", "metacommands.py", 'return b"\\x00\\x00" * blkw_count', 'return b"\\x00" * blkw_count', 1),
+    ("C13-bit-order", "C13", "bk_wav.py", "[(byte >> i) & 1]", "[(byte >> (7 - i)) & 1]", 1),
+    ("C13-bin-endianness", "C13", "formats.py", 'struct.pack("<HH", base, len(code))', 'struct.pack(">HH", base, len(code))', 1),
+    ("C13-checksum-modulo", "C13", "bk_wav.py", "return (total - 1) % (2 ** 16 - 1) + 1 if total else 0", "return total % (2 ** 16 - 1)", 1),
+    ("C13-wav-header", "C13", "bk_wav.py", "36 + len(data),", "44 + len(data),", 1),
+    ("C14-table-transposed", "C14", "bk_encoding.py", '"@"   , "A"   , "B"', '"@"   , "B"   , "A"', 1),
+    ("C14-error-end", "C14", "bk_encoding.py", "        end = len(string)\n", "        end = len(string) - 1\n", 1),
+    ("C14-error-start", "C14", "bk_encoding.py", "        start = 0\n", "        start = 1\n", 1),
+    ("C15-weights", "C15", "metacommands.py", "a * 1600 + b * 40 + c", "a + b * 40 + c * 1600", 1),
+    ("C15-pad-modulus", "C15", "metacommands.py", "while len(characters) % 3 != 0:", "while len(characters) % 2 != 0:", 1),
+    ("C15-limit", "C15", "metacommands.py", "if val >= 40:", "if val > 40:", 1),
+    ("C15-table", "C15", "radix50.py", "XYZ$.%0123", "XYZ.$%0123", 1),
     # negative controls: semantically neutral edits, every check must stay green
     ("NEG-rename-local", "C06", "metacommand_impl.py", "    value = wait(arg_token.resolve(state))\n\n    if not isinstance(value, int):", "    value = wait(arg_token.resolve(state))\n    _unused = 1\n\n    if not isinstance(value, int):", 0),
     ("NEG-comment-lines", "C01", "insns.py", "def try_as_register(operand, state):", "# a comment\n\ndef try_as_register(operand, state):", 0),
